@@ -1253,8 +1253,9 @@ class Analyzer(Analysis):
                     self.events.append(ev)
                 return
             elif name == "std::iter::Iterator::map" and len(vals) == 2 and vals[0] is not None and vals[0][0] == "iter" \
-                    and vals[1] is not None and vals[1][0] == "closure":
-                result = ("mapiter", vals[0][1], vals[1][1])
+                    and vals[1] is not None and (vals[1][0] == "closure" or (vals[1][0] == "fn" and isinstance(vals[1][1], dict))):
+                # the mapped function: a closure, or a (nested) fn item passed by name
+                result = ("mapiter", vals[0][1], vals[1][1] if vals[1][0] == "closure" else vals[1][1].get("id"))
                 handled = True
             elif name == "std::iter::Iterator::sum" and vals and vals[0] is not None and vals[0][0] == "mapiter":
                 result = ("lin", self.sym("SUM[%s](%s)" % (vals[0][2], self.origin.get(vals[0][1], vals[0][1])), (0, USIZE_HI)))
